@@ -225,6 +225,47 @@ def dotname_cases(rnd):
     return lines
 
 
+def dotdot_inside_cases(rnd):
+    """(audit round 5) link targets whose '..' stay below the link's own directory when read as text -- 'd/..', 'd/d/..', './d/..',
+    'd/d/d/../../..', 'x/../d/..' -- next to a harmless link 'd -> .': as text they look like the directory itself, the kernel
+    resolves them to the PARENT of the extraction directory.  They contain '..', so they are dangerous links: created last, and a
+    member written 'through' them must not end up outside.  (The generated archives have the target 'd/..' only by chance, and
+    almost never together with a link 'd' that makes it climb.)"""
+    r = random.Random(23)
+
+    def S(n):
+        d = bytes((i * 7 + 1) & 0xff for i in range(n))
+        return {"method": "-lh0-", "data": d, "length": len(d), "crc": T.crc16(d), "plain": d}
+
+    def F(full, lv=2):
+        return T.file_member(r, S(5), full, lv)
+
+    def D(path, perms=0o40755, lv=2):
+        return T.dir_member(r, path, lv, perms)
+
+    def L(full, t, lv=2):
+        return T.link_member(r, full, t, lv)
+    lines = []
+    for lv in (2, 1, 0, 3):
+        arcs = [
+            [L(b"d", b".", lv), L(b"l", b"d/..", lv), F(b"l/esc1", lv)],
+            [L(b"d", b".", lv), L(b"l", b"d/d/..", lv), F(b"l/esc2", lv), D(b"l/sub/", 0o40700, lv)],
+            [L(b"d", b".", lv), L(b"l", b"./d/..", lv), F(b"l/outside/esc3", lv)],
+            [L(b"d", b".", lv), L(b"l", b"d/d/d/../../..", lv), F(b"l/esc4", lv), F(b"after", lv)],
+            [L(b"d", b".", lv), L(b"l", b"x/../d/..", lv), D(b"x/", 0o40755, lv), F(b"l/esc5", lv)],
+            [L(b"d", b".", lv), L(b"l", b"d/../outside", lv), F(b"l/esc6", lv)],
+            [D(b"t/", 0o40755, lv), L(b"t/d", b".", lv), L(b"t/l", b"d/..", lv), F(b"t/l/esc7", lv)],
+            [D(b"t/", 0o40755, lv), L(b"t/d", b"..", lv), L(b"l", b"t/d/..", lv), F(b"l/esc8", lv)],
+            [L(b"l", b"d/..", lv), L(b"d", b".", lv), F(b"l/esc9", lv), L(b"m", b"l/outside", lv), F(b"m/esc10", lv)],
+            [L(b"d", b".", lv), L(b"l", b"d/..", lv), L(b"l/outside/k", b"/x", lv), D(b"l/outside/nd/", 0o40700, lv)],
+        ]
+        for ms in arcs:
+            arc = T.archive(ms)
+            for c in ((b"x", b"xf", b"xw=o") if lv == 2 else (r.choice([b"x", b"xf", b"e", b"xq2"]),)):
+                lines.append(TC.case([c, TC.ARC], arc, b"y\ny\n", uid0=1 if r.random() < 0.25 else 0))
+    return lines
+
+
 def linkfile_cases(arcs, rnd, quick):
     """a symbolic link already at the place of a member's final path component, pointing at a FILE outside the extraction
     directory or at nothing (both allowed by the property's precondition: only links to directories are excluded) --
@@ -288,6 +329,7 @@ def run(ctx):
         fam["corrupt"] = TC.fam_corrupt(pool, arcs, q, rnd, 100 if q else 4000)
         if q:
             fam["danger"] = TC.thin(fam["danger"], 500, rnd)
+        fam["danger"] = fam["danger"] + dotdot_inside_cases(rnd)      # (in "danger": both the effects and the order oracle see them)
         fam["dotnames"] = dotname_cases(rnd)
         fam["linkfile"] = TC.thin(linkfile_cases(arcs, rnd, q), 200 if q else 100000, rnd)
         corpus = [l.strip() for l in open(os.path.join(common.VERIF, "corpus", "C10", "deferred_through_safe_link.txt")) if l.startswith("cli ")]
@@ -341,7 +383,8 @@ def run(ctx):
                                  "model_trace_tail": " ".join(ops[-6:]), "mechanism": sig, "sig": sig})
         # ---------------------------------------------------------------- order of the real system calls
         rnd.shuffle(order_pool)
-        sel = corpus + order_pool[:(120 if q else 2500)]
+        must = [l for l in dotdot_inside_cases(rnd)[:30:6] if TC.comparable(l)]      # (always traced: `x` on every second archive shape)
+        sel = corpus + must + [l for l in order_pool[:(120 if q else 2500)] if l not in must]
         n_ord = n_danger = 0
         from concurrent.futures import ThreadPoolExecutor
         chunks = [sel[i::common.NCPU] for i in range(common.NCPU)]
